@@ -4,6 +4,7 @@ from __future__ import annotations
 import ast
 
 from ..amatch import AM
+from ..flow import expand
 from ..report import AnalysisError
 from ..srcmodel import norm
 from . import c15
@@ -26,34 +27,47 @@ def rule_a(ctx):
     import re
 
     documented = set(re.findall(r'"([a-z0-9_.]+)"', next((ln for ln in doc.splitlines() if "method (str)" in ln), "")))
-    dispatched = set()
-    for n in ast.walk(f.node):
-        if isinstance(n, ast.Compare) and norm(n.left) == f"{pm}.lower()":
-            c = n.comparators[0]
-            if isinstance(c, ast.Constant):
-                dispatched.add(c.value)
-            elif isinstance(c, ast.List):
-                dispatched |= {e.value for e in c.elts if isinstance(e, ast.Constant)}
-    ctx.ob(R, f.qname, "documented methods = dispatched methods", documented == dispatched and len(documented) >= 3, f"documented {sorted(documented)}, dispatched {sorted(dispatched)}", f.node)
-    top = [st for st in f.node.body if isinstance(st, ast.If)]
-    ok = False
-    if top:
-        cur = top[0]
-        while len(cur.orelse) == 1 and isinstance(cur.orelse[0], ast.If):
-            cur = cur.orelse[0]
-        ok = any(isinstance(s, ast.Raise) for s in cur.orelse)
-    ctx.ob(R, f.qname, "dispatch chain ends in raise", ok, "", f.node)
-    am = AM(f)
+    ctx.need(len(documented) >= 3, f"{f.qname}: documented method names not found in the docstring")
+    # the front end is folded symbolically per documented method (any spelling of the dispatch is followed): what it returns must be
+    # <back end class>(generate_grid(mass_1), weight, options)(mass_1, mass_2)
+    from ..fold import Folder, Opaque, Raised, Refuse
+
+    M1, M2, W, O = Opaque("img", "mass_1"), Opaque("img", "mass_2"), Opaque("img", "weight"), Opaque("dict", "options")
+    want_cls = {"newton": "WassersteinDistanceNewton", "bregman": "WassersteinDistanceBregman"}
+    for lit in sorted(documented):
+        for spelled in (lit, lit.upper()):
+            ctx.instance(R)
+            fo = Folder(symbolic=True)
+            variational = lit in want_cls
+            try:
+                res = fo.call(f.node, [M1, M2, spelled, W if variational else None], {"options": O})
+                got = repr(res)
+            except Raised as e:
+                got = f"raises {e.name}"
+            except Refuse as e:
+                ctx.ob(R, f.qname, f"method {spelled!r}: returns the back end's result on (mass_1, mass_2)", False, f"front end not found to be foldable: {e}", f.node)
+                continue
+            if variational:
+                want = f"{want_cls[lit]}(darsia.generate_grid({M1!r}), {W!r}, {O!r})({M1!r}, {M2!r})"
+            else:
+                want = None
+            ok = got == want if want else (got.startswith("darsia.EMD(") and got.endswith(f"({M1!r}, {M2!r})"))
+            ctx.ob(R, f.qname, f"method {spelled!r}: returns {'Cls(generate_grid(mass_1), weight, options)' if variational else 'darsia.EMD(...)'}(mass_1, mass_2)", ok, f"returns {got}", f.node, evidence=True)
+    fo = Folder(symbolic=True)
+    try:
+        fo.call(f.node, [M1, M2, "no-such-method", None], {})
+        got = "returns"
+    except Raised as e:
+        got = f"raises {e.name}"
+    except Refuse as e:
+        got = f"not found to be foldable: {e}"
+    ctx.ob(R, f.qname, "an undocumented method name raises", got.startswith("raises"), got, f.node)
+    # every return hands back a back end applied to the two masses (a constant or anything else is not a distance computed by a back end)
     rets = [r for r in ast.walk(f.node) if isinstance(r, ast.Return) and r.value is not None]
-    ok = len(rets) == 1 and am.eq(rets[0].value, f"w1({p1}, {p2})")
-    ctx.ob(R, f.qname, "the result is exactly <back end>(mass_1, mass_2)", ok, norm(rets[0].value) if rets else "", f.node)
-    g_ok = am.has(f.node, f"grid = darsia.generate_grid({p1})") is not None or am.has(f.node, f"grid: darsia.Grid = darsia.generate_grid({p1})") is not None
-    o_ok = am.has(f.node, "options = kwargs.get('options', {})") is not None
-    n_ok = am.has(f.node, f"w1 = WassersteinDistanceNewton(grid, {pw}, options)") is not None
-    b_ok = am.has(f.node, f"w1 = WassersteinDistanceBregman(grid, {pw}, options)") is not None
-    ctx.ob(R, f.qname, "both variational back ends are built as Cls(grid, weight, options)", n_ok and b_ok, str(am.show()), f.node)
-    ctx.ob(R, f.qname, "grid is generate_grid(mass_1)", g_ok, "", f.node)
-    ctx.ob(R, f.qname, "options is the caller's options (or an empty dict)", o_ok, "", f.node)
+    bad = [norm(r.value) for r in rets if not (isinstance(expand(f.node, r.value), ast.Call) and [norm(a) for a in expand(f.node, r.value).args] == [p1, p2])]
+    ctx.ob(R, f.qname, "every return is <back end>(mass_1, mass_2)", bool(rets) and not bad, f"other returns: {bad}", f.node, evidence=True)
+    am = AM(f)
+    am.has(f.node, "options = kwargs.get('options', {})")
     oname = am.actual("options") or "options"
     writes = [norm(n) for n in ast.walk(f.node) if isinstance(n, (ast.Assign, ast.AugAssign)) and any(isinstance(t, ast.Subscript) and norm(t.value) == oname for t in (n.targets if isinstance(n, ast.Assign) else [n.target]))]
     writes += [norm(n) for n in ast.walk(f.node) if isinstance(n, ast.Call) and norm(n.func) in (f"{oname}.update", f"{oname}.pop", f"{oname}.setdefault", f"{oname}.clear")]
@@ -94,7 +108,10 @@ def rule_b(ctx):
     am = AM(td)
     loops = [l for l in ast.walk(td.node) if isinstance(l, ast.For)]
     ok = len(loops) == 1 and am.eq(loops[0].iter, "zip(quad_pts, quad_weights)") and am.eq(loops[0].target, "(quad_pt, quad_weight)")
-    acc = am.has(td.node, "transport_density += quad_weight * cell_flux_norm") is not None
+    am_acc = AM(td)
+    am_acc.bind.update({k: v for k, v in am.bind.items() if k in ("quad_weight",)})
+    am_acc.let("cell_flux_norm", "np.linalg.norm(some_cell_flux, axis=-1)")
+    acc = am_acc.has(td.node, "transport_density += quad_weight * cell_flux_norm") is not None
     pts_ok = am.has(td.node, "cell_flux = darsia.face_to_cell(self.grid, flat_flux, pt=quad_pt)") is not None
     ctx.ob(R, td.qname, "density accumulates weight * |flux(point)| over zip(points, weights)", ok and acc and pts_ok, str(am.show()), td.node)
     l1 = ctx.model.func(WAS, "VariationalWassersteinDistance.l1_dissipation")
